@@ -159,19 +159,19 @@ def build(features=()):
 
     # ---- from_seed ------------------------------------------------------------------------------------------
     u.impl(cr, 'hc128::SeedableRng@Hc128Core', header='impl SeedableRng for Hc128Core', keep=['type Seed'], fns=['from_seed'], contracts={
-        'from_seed': Fn(None, ret='r', builtin_props='C14',
+        'from_seed': Fn(None, ret='r', builtin_props='C14 C18',
                         sig_rewrites=[(r'seed: Self::Seed', 'seed: [u8; 32]')],
                         ensures=[C('hc128.from_seed.init_of_le_words', 'C02 C09', 'r.counter1024 == 0 && r.core_inv() && r.t@ == hc128_init(words32(seed@))')],
                         inserts=[after(lit('le::read_u32_into(&seed, &mut seed_u32);'), 'proof { assert(seed_u32@ =~= words32(seed@)); }')])})
 
     # ---- Clone / PartialEq ----------------------------------------------------------------------------------
     u.impl(cr, 'hc128::Clone@Hc128Core', header='impl Clone for Hc128Core', fns=['clone'], contracts={
-        'clone': Fn(None, ret='r', builtin_props='C14', ensures=[C('hc128.core.clone.all_fields', 'C10', 'r.t@ =~= self.t@ && r.counter1024 == self.counter1024')])})
+        'clone': Fn(None, ret='r', builtin_props='C14 C18', ensures=[C('hc128.core.clone.all_fields', 'C10', 'r.t@ =~= self.t@ && r.counter1024 == self.counter1024')])})
     u.raw('impl vstd::std_specs::cmp::PartialEqSpecImpl for Hc128Core {\n'
           '    open spec fn obeys_eq_spec() -> bool { true }\n'
           '    open spec fn eq_spec(&self, other: &Hc128Core) -> bool { self.t@ =~= other.t@ && self.counter1024 == other.counter1024 }\n}')
     u.impl(cr, 'hc128::PartialEq@Hc128Core', header='impl PartialEq for Hc128Core', fns=['eq'], contracts={
-        'eq': Fn(None, ret='r', builtin_props='C14', trait_props='C10', ensures=[
+        'eq': Fn(None, ret='r', builtin_props='C14 C18', trait_props='C10', ensures=[
             C('hc128.core.eq.iff_all_fields', 'C10', 'r == (self.t@ =~= rhs.t@ && self.counter1024 == rhs.counter1024)')],
             inserts=[entry('proof { assert(self.t@.subrange(0, 1024) =~= self.t@); assert(rhs.t@.subrange(0, 1024) =~= rhs.t@); }')])})
     # Hc128Rng::eq over a stand-in for rand_core::block::BlockRng (pub field `core`, getter `index()`; T5)
@@ -186,7 +186,7 @@ impl vstd::std_specs::cmp::PartialEqSpecImpl for Hc128Rng {
     open spec fn eq_spec(&self, other: &Hc128Rng) -> bool { self.0.core.t@ =~= other.0.core.t@ && self.0.core.counter1024 == other.0.core.counter1024 && self.0.idx == other.0.idx }
 }''')
     u.impl(cr, 'hc128::PartialEq@Hc128Rng', header='impl PartialEq for Hc128Rng', fns=['eq'], contracts={
-        'eq': Fn(None, ret='r', builtin_props='C14', trait_props='C10', ensures=[
+        'eq': Fn(None, ret='r', builtin_props='C14 C18', trait_props='C10', ensures=[
             C('hc128.rng.eq.core_and_index', 'C10', 'r == (self.0.core.t@ =~= rhs.0.core.t@ && self.0.core.counter1024 == rhs.0.core.counter1024 && self.0.idx == rhs.0.idx)')])})
     u.skip('hc128::Hc128Rng (RngCore, SeedableRng, Clone, Debug)', 'thin wrappers over rand_core::block::BlockRng (dependency code): Kani harnesses (C05, C09, C17)')
     u.skip('hc128::Debug@Hc128Core::fmt', 'formatting; C17 by Kani')
